@@ -396,7 +396,7 @@ def stepLine (s : DState) (w : List String) : DState × String :=
               | _ => none
             else if k == "if" then
               match l with
-              | ids :: v :: rest => if ids.length > 65534 then none else goB (ifSetData b ids v) rest
+              | ids :: v :: rest => if ids.length > 65535 then none else goB (ifSetData b ids v) rest
               | _ => none
             else
               match l with
